@@ -8,6 +8,7 @@ function body; both must equal the reference.
 """
 import itertools
 import json
+import re
 import subprocess
 
 from . import common, pipe, sem, serve
@@ -197,6 +198,65 @@ def run(tier):
             else:
                 # rejected for another reason (construct not allowed in const initialisers): outside the domain
                 pass
+    # ---- declaration order and annotations -----------------------------------------------------------------------------
+    # (a) the same initializer with the consts it refers to declared *after* it, and with those consts un-annotated: verdict
+    #     and value of K, and the values of the consts referred to, must not depend on either
+    names_re = re.compile(r"\b(" + "|".join(list(ENV) + ["N", "M", "F", "B"]) + r")\b")
+    refs = [(i, sig, e) for i, (sig, e) in enumerate(exprs) if names_re.search(e)]
+    decls_u = "".join(f'const {k} = "{v}"\n' for k, v in ENV.items()) + "const N = 2\nconst M = -1\nconst F = 1.5\nconst B = True\n"
+    shapes = {"forward": lambda e: f"const K = {e}\n" + DECLS, "unannotated": lambda e: decls_u + f"const K = {e}\n", "forward_unannotated": lambda e: f"const K = {e}\n" + decls_u}
+    oreqs = [{"id": f"{sh}:{i}", "op": "types", "src": mk(e)} for (i, sig, e) in refs for sh, mk in shapes.items()]
+    ores = serve.run_requests(oreqs)
+
+    def summary(r):
+        if r.get("crashed") or r.get("panic"):
+            return ("crashed",)
+        if r.get("ok"):
+            v = r["consts"].get("K")
+            return ("ok", repr(const_value_to_py(v)) if v is not None else None)
+        return ("err", tuple(sorted(m for m, _, _ in r.get("errs", []) if m.startswith(("IndexError", "ValueError", "ZeroDivisionError")))))
+
+    for (i, sig, e) in refs:
+        base_sum = summary(res[i])
+        for sh, mk in shapes.items():
+            r = ores[f"{sh}:{i}"]
+            n_static += 1
+            got = summary(r)
+            if got != base_sum and not (sh.endswith("unannotated") and got[0] == base_sum[0] == "ok" and None in (got[1], base_sum[1])):
+                out.fail(f"{sig[0]}|{sh}-declaration-order-changes-the-result", {"expr": e, "program": mk(e), "with_dependencies_declared_first_and_annotated": base_sum, "this_shape": got})
+                continue
+            if r.get("ok"):
+                wrong = {k: repr(const_value_to_py(v)) for k, v in r["consts"].items() if k in PYENV and v is not None and const_value_to_py(v) != PYENV[k]}
+                missing = [k for k in PYENV if isinstance(PYENV[k], str) and names_re.search(e) and k in e and r["consts"].get(k) is None and res[i].get("ok") and res[i]["consts"].get(k) is not None]
+                if wrong or missing:
+                    out.fail(f"{sig[0]}|{sh}-referenced-const-value-lost-or-wrong", {"expr": e, "program": mk(e), "wrong": wrong, "no_value_although_known_in_the_other_order": missing})
+                    continue
+            sig_ok.add(sig + (sh,))
+    # (b) an annotation that contradicts the initializer must be rejected wherever the const stands relative to its users
+    lits = {"int": "10", "float": "1.5", "str": '"ten"', "bool": "True"}
+    areqs, ameta = [], []
+    for ann in lits:
+        for init_ty, init in lits.items():
+            for order in ("user_first", "user_last", "no_user"):
+                decl = f"const LIMIT: {ann} = {init}\n"
+                src = {"user_first": "const ALIAS = LIMIT\n" + decl, "user_last": decl + "const ALIAS = LIMIT\n", "no_user": decl}[order]
+                areqs.append({"id": len(ameta), "op": "types", "src": src})
+                ameta.append((ann, init_ty, order, src))
+    ares = serve.run_requests(areqs)
+    verdict_fn = {}
+    freqs = [{"id": k, "op": "types", "src": f"def t() -> None:\n    x: {ann} = {init}\n"} for k, (ann, (init_ty, init)) in enumerate(itertools.product(lits, lits.items()))]
+    fres = serve.run_requests(freqs)
+    for k, (ann, (init_ty, init)) in enumerate(itertools.product(lits, lits.items())):
+        verdict_fn[(ann, init_ty)] = bool(fres[k].get("ok"))
+    for k, (ann, init_ty, order, src) in enumerate(ameta):
+        n_static += 1
+        r = ares[k]
+        if r.get("crashed") or r.get("panic"):
+            out.fail("annotation|checker-crashed-or-hung", {"program": src})
+        elif bool(r.get("ok")) != verdict_fn[(ann, init_ty)]:
+            out.fail(f"annotation|const-{'accepted' if r.get('ok') else 'rejected'}-but-local-binding-{'accepted' if verdict_fn[(ann, init_ty)] else 'rejected'}|{order}", {"program": src, "annotation": ann, "initializer_type": init_ty, "same_binding_in_a_function_body_accepted": verdict_fn[(ann, init_ty)], "checker": r.get("errs")})
+        else:
+            sig_ok.add(("annotation", ann, init_ty, order))
     # ---- cycles -------------------------------------------------------------------------------------------------
     gs = list(graphs())
     reqs = [{"id": m, "op": "types", "src": src} for m, es, src, cyc in gs]
@@ -280,7 +340,7 @@ def run(tier):
         "distinct_nontrivial": len(sig_ok),
         "rule": "const-evaluable expressions: literals, const references, unary -/not, 7 numeric operators, 6 comparisons, and/or, string +, in / not in, every string index in "
         "{-6,-5,-1,0,1,4,5,9} on 4 strings, every slice with start/end in {absent,-7,-2,0,1,3,9} and step in {absent,1,2,-1,-2,0} (quick: reduced 3-part product), depth-2 "
-        "slice/index/concat/membership combinations, tuples and frozen collections; all 512 dependency graphs on 3 consts x 4 initializer shapes (annotated sum, unannotated sum, bare alias, annotated alias); static oracle = CPython evaluation vs the checker's "
+        "slice/index/concat/membership combinations, tuples and frozen collections; every initializer that refers to another const again with that const declared after it and / or un-annotated (result and referenced values must not change); 4 annotations x 4 initializer types x 3 positions relative to a user of the const (verdict must equal that of the same binding in a function body); all 512 dependency graphs on 3 consts x 4 initializer shapes (annotated sum, unannotated sum, bare alias, annotated alias); static oracle = CPython evaluation vs the checker's "
         "verdict and computed const value; dynamic oracle = printed const == same expression in a function body == reference",
         "samples": [{"sig": list(s), "expr": e} for s, e in common.pick_samples(exprs)],
         "exhaustive": True,
